@@ -33,13 +33,15 @@ class Rig:
 
     def __init__(self, env, kind: str = 'sync', *, wire: Optional[Wire] = None, max_batch_size: Any = None,
                  perr_data: str = 'absent', exc: str = 'ValueError', plain_on_async: bool = False,
-                 middlewares=(), error_handlers=None, tag: str = '', extra_kwargs: Optional[dict] = None):
+                 middlewares=(), error_handlers=None, tag: str = '', extra_kwargs: Optional[dict] = None,
+                 suspend: bool = True):
         import pjrpc.server
         self.env = env
         self.kind = kind
         self.wire = wire or Wire(env)
         self.log: List[Any] = []
         self._co_calls = 0
+        self.suspend = suspend
         self.perr_data = perr_data
         self.exc = exc
         kw: Dict[str, Any] = dict(self.wire.kwargs())
@@ -103,7 +105,7 @@ class Rig:
         fns = {'echo': echo, 'two': two, 'perr': perr, 'boom': boom}
         for name, fn in fns.items():
             if as_coroutines:
-                fn = _as_coro(fn, self)
+                fn = _as_coro(fn, self if self.suspend else None)
             self.d.add(fn, name=name)
 
     # -- driving ----------------------------------------------------------------------------------
